@@ -105,6 +105,7 @@ func (fc *FnCtx) evalBuiltin(st *State, name string, call *ast.CallExpr) []Val {
 			if fc.idxBV() {
 				fc.fail(call.Pos(), "len(map) in bv mode")
 			}
+			fc.assume(st, app(">=", c, "0")) // a map has a non-negative number of entries
 			return []Val{{T: c, Ty: tInt}}
 		case *types.Array:
 			return []Val{fc.constVal(constant.MakeInt64(t.Len()), tInt)}
@@ -498,6 +499,37 @@ func (fc *FnCtx) callStatic(st *State, callee *types.Func, call *ast.CallExpr) [
 		_ = ie
 	}
 	sig := callee.Type().(*types.Signature)
+	// a call of a generic function: evaluate the arguments at the instantiated parameter types
+	{
+		var id *ast.Ident
+		switch f := ast.Unparen(call.Fun).(type) {
+		case *ast.Ident:
+			id = f
+		case *ast.SelectorExpr:
+			id = f.Sel
+		case *ast.IndexExpr:
+			switch g := ast.Unparen(f.X).(type) {
+			case *ast.Ident:
+				id = g
+			case *ast.SelectorExpr:
+				id = g.Sel
+			}
+		case *ast.IndexListExpr:
+			switch g := ast.Unparen(f.X).(type) {
+			case *ast.Ident:
+				id = g
+			case *ast.SelectorExpr:
+				id = g.Sel
+			}
+		}
+		if id != nil {
+			if inst, ok := fc.info().Instances[id]; ok {
+				if isig, ok := inst.Type.(*types.Signature); ok {
+					sig = isig
+				}
+			}
+		}
+	}
 	var args []Val
 	if len(call.Args) == 1 && sig.Params().Len() > 1 {
 		args = fc.evalMulti(st, call.Args[0], sig.Params().Len())
